@@ -21,8 +21,8 @@ META = {
     "engine": "GoSem",
     "technique": "TLA+ reference of Go semantics (IntALU over BigInt, InitOrder, StrConv over Utf8, the MiniGo interpreter incl. call frames with defer / panic / recover, GoMisc: variadic calls, select, constant uses, PkgInit: initialisation of a program of several packages) + implementation-shaped models of the VM's per-kind truncation switches, of the checker's declaration sort (sortDeclarations / funcVarsResolved / checkDepsPath), of the emitter's list of init functions (emitPackage / emitImport) and of the import stack of ParseProgram, model-checked exhaustively by TLC; TLC exports the case spaces - for MiniGo it runs every program to completion to obtain its output, and it enumerates every defer/panic/recover program (tree of functions) up to a number of nodes; a Go driver writes each case as Go source (in up to four source forms; a program of several packages as go.mod + one directory per package), builds and runs it with the real scriggo.Build/Run; a TLC Trace spec judges every observation against the reference; gc is consulted only for failing cases (oracle guard)",
     "level": "model_checking",
-    "level_text": "TLC model-checks Impl(op,kind,x,y) against Ref for all 11 integer kinds x 17 binary + 2 unary operators + conversions x boundary operands x shift counts of every count kind (register and constant-operand forms); the declaration-sort algorithm of the checker, under both textual orders of the dependencies, against the Go spec's initialisation algorithm for all dependency graphs over 3 variables + 1 function with at most 3 edges and all 'through functions' graphs (no direct variable -> variable edge; chains, recursion and mutual recursion of functions) over 3 variables + 2 functions with at most 5 edges (thorough: all 65 536 graphs over 3 + 1, all graphs over 4 + 2 with at most 3 edges, through-functions graphs with at most 6 edges); the same cases are run through the real Build/Run in up to four source forms each and every printed value / panic message / build outcome is judged by the TLA+ reference. MiniGo programs (labelled break / continue across for, range and switch, switch/fallthrough, goto, closures, arrays/structs/slices/maps, strings, run-time faults, operand evaluation order of println) are interpreted by TLC and their output compared with the real run; every defer/panic/recover program of at most 5 (thorough 6) nodes - nested calls, deferred calls, panics raised while panicking, recover at every position - is enumerated and interpreted by TLC and run as top-level functions and as function literals; every variadic call shape (0..2 fixed, 0..3 variadic arguments or a nil / empty / non-empty slice spread), every select over 2..3 buffered channels with exactly one (or no) ready case, and every sequence of up to 3 (thorough 4) uses of one bool / int constant at different types is run and judged. Programs of several packages: every acyclic import graph over the packages p, q, r and main (370 graphs, every order of the import declarations: chains, fans, diamonds, a package imported directly and through another) with 2 (thorough 24) drawn decorations each - 0..2 variables per package whose initialisers print and read a variable of an imported package or of their own package, 0..2 init functions per package that print and write a variable of an imported package, main prints every final value - in two source forms; TLC model-checks the emitter's construction of the list of init functions against the Go specification's order (imported packages first, every package once, variables before init functions, main last) and the judge accepts the output of any order of independent packages that the specification allowed before Go 1.21 fixed it to import-path order; every import graph with a cycle (1290; the quick tier runs a third of them, chosen by the seed) must be rejected by Build.",
-    "level_note": "Trusted: TLC, lib/BigInt.tla and lib/Utf8.tla, the concretiser (record -> Go source by string templates) and the print capture of the driver. gc is not on the passing path. The final outcome judged for a panic is the message of the newest panic (PanicError.String); the chain format and Stop/Fatal are C12's. Not covered: floating point and complex numbers, print formatting of floats, the // run corpus, goroutines and unbuffered channels (C14), methods on Scriggo-defined types and generics (outside Scriggo's subset), runtime.Goexit, panic values other than int and run-time errors, named results modified by deferred closures (where the Go specification's wording on recover() leaves room - a deferred call run by an ordinary return while an outer panic is in progress - the reference follows gc: nil; the reference was audited against gc on 572 programs of the defer/panic/recover space), register-allocation pressure beyond the generated programs; for programs of several packages: the Go 1.21 rule that independent packages are initialised in import-path order (Scriggo follows the order of the import declarations; the number of programs whose output differs from that of the Go 1.21 order is counted in pkginit_output_differs_from_go1_21_import_path_order, not judged), packages of more than one file, more than 4 packages, blank / dot / renamed imports, native packages.",
+    "level_text": "TLC model-checks Impl(op,kind,x,y) against Ref for all 11 integer kinds x 17 binary + 2 unary operators + conversions x boundary operands x shift counts of every count kind (register and constant-operand forms); the declaration-sort algorithm of the checker, under both textual orders of the dependencies, against the Go spec's initialisation algorithm for all dependency graphs over 3 variables + 1 function with at most 3 edges and all 'through functions' graphs (no direct variable -> variable edge; chains, recursion and mutual recursion of functions) over 3 variables + 2 functions with at most 5 edges (thorough: all 65 536 graphs over 3 + 1, all graphs over 4 + 2 with at most 3 edges, through-functions graphs with at most 6 edges); the same cases are run through the real Build/Run in up to four source forms each and every printed value / panic message / build outcome is judged by the TLA+ reference. MiniGo programs (labelled break / continue across for, range and switch, switch/fallthrough, goto, closures, arrays/structs/slices/maps, strings, run-time faults, operand evaluation order of println) are interpreted by TLC and their output compared with the real run; every defer/panic/recover program of at most 5 (thorough 6) nodes - nested calls, deferred calls, panics raised while panicking, recover at every position - is enumerated and interpreted by TLC and run as top-level functions and as function literals; every variadic call shape (0..2 fixed, 0..3 variadic arguments or a nil / empty / non-empty slice spread), every select over 2..3 buffered channels with exactly one (or no) ready case, and every sequence of up to 3 (thorough 4) uses of one bool / int constant at different types is run and judged. Programs of several packages: every acyclic import graph over the packages p, q, r and main (370 graphs, every order of the import declarations: chains, fans, diamonds, a package imported directly and through another) with 2 (thorough 24) drawn decorations each - 0..2 variables per package whose initialisers print and read a variable of an imported package or of their own package, 0..2 init functions per package that print and write a variable of an imported package, main prints every final value - in two source forms; TLC model-checks the emitter's construction of the list of init functions against the Go specification's order (imported packages first, every package once, variables before init functions, main last; independent packages in the order of their import paths, the Go 1.21 rule, which the construction does not follow: model counterexamples, and the only output the judge accepts is the one of that order); every import graph with a cycle (1290; the quick tier runs a third of them, chosen by the seed) must be rejected by Build.",
+    "level_note": "Trusted: TLC, lib/BigInt.tla and lib/Utf8.tla, the concretiser (record -> Go source by string templates) and the print capture of the driver. gc is not on the passing path. The final outcome judged for a panic is the message of the newest panic (PanicError.String); the chain format and Stop/Fatal are C12's. Not covered: floating point and complex numbers, print formatting of floats, the // run corpus, goroutines and unbuffered channels (C14), methods on Scriggo-defined types and generics (outside Scriggo's subset), runtime.Goexit, panic values other than int and run-time errors, named results modified by deferred closures (where the Go specification's wording on recover() leaves room - a deferred call run by an ordinary return while an outer panic is in progress - the reference follows gc: nil; the reference was audited against gc on 572 programs of the defer/panic/recover space), register-allocation pressure beyond the generated programs; for programs of several packages: packages of more than one file, more than 4 packages, blank / dot / renamed imports, native packages.",
     "design_ref": "7/C01",
 }
 FAMS = ["gosem"]
@@ -654,7 +654,7 @@ def part_pkginit(ctx):
     n, samples, cycstep = 4, ctx.pick(2, 24), ctx.pick(3, 1)
     wd = ctx.stage("mc_pkginit", FAMS)
     (wd / "PkgInitCfg.tla").write_text("---- MODULE PkgInitCfg ----\nPkgN == %d\nPkgSamples == %d\nPkgSeed == %d\nPkgCycStep == %d\n====\n" % (n, samples, ctx.seed, cycstep))
-    invs = ["ImplMeetsRef", "RefSane", "ParserMeetsRef", "ParserAncestorsOnlyMeetsRef"]
+    invs = ["ImplMeetsRef", "ImplDeclOrder", "RefSane", "ParserMeetsRef"]
     rig.write_cfg(wd / "MC_PkgInit.cfg", invariants=invs)
     r = ctx.tlc(wd, "MC_PkgInit", workers=4, timeout=1500, extra=["-continue"])
     if "Model checking completed" not in r.out:
@@ -678,8 +678,8 @@ def part_pkginit(ctx):
             "programs_where_init_functions_write_imported_variables": sum(1 for c in acyc if any(w["p"] for ws in c["inits"] for w in ws))}
     viol = mc_violations(r.out)
     if viol:
-        # ParserMeetsRef: the stack search of ParseProgram as it is in the code (a pending import is taken for an ancestor)
-        # reports a cycle on acyclic graphs; diagnostic - the programs are run on the real code
+        # ImplMeetsRef: the emitter's construction takes independent packages in the order of the import declarations, the
+        # specification (Go 1.21) in the order of their import paths; diagnostic - the programs are run on the real code
         info["model_counterexample"] = {"violating_states_by_invariant": viol, "tlc_out": str(wd / "MC_PkgInit.out"),
                                         "replayed": "every program of the space is run on the real code"}
     return cases, info
@@ -947,8 +947,8 @@ def run(ctx, replay_cases=None):
         exhaustive=True,
         samples=[sample(o) for fam in sorted(by_fam) for o in rig.pick_samples(by_fam[fam], 2, ctx.seed)],
     )
-    # diagnostic (see PkgInit.tla): programs of several packages whose output is one the specification allowed up to Go 1.20
-    # but not the one of the Go 1.21 rule (independent packages in import-path order), which is what gc prints
+    # programs of several packages whose output is not the one of the Go 1.21 rule (independent packages in import-path
+    # order), which is what gc prints: each of them is a bad record of the judge (counted here from the exported g121)
     ctx.cov["pkginit_output_differs_from_go1_21_import_path_order"] = sum(1 for o in by_fam.get("pkginit", []) if o["outcome"] == "ok" and o["out"] != o["g121"])
     ctx.cov["panic_message_detail_differs"] = sum(1 for o in by_fam.get("minigo", []) if o["outcome"] == "panic" and o["exp"]["outcome"] == "panic" and o["msg"] != o["exp"]["msg"])
     # judge
